@@ -484,6 +484,28 @@ class Effects:
                 s.ret_alias |= self.roots(q, e.value)
                 s.ret_contain |= self.contains(q, e.value)
 
+    @staticmethod
+    def _fresh_container(w: GuardWalk, recv: ast.AST) -> bool:
+        """`recv` is a local name every definition of which builds a new list / set / dict /
+        deque (a display, a comprehension, list(..) / set(..) / dict(..) / deque(..))"""
+        if not isinstance(recv, ast.Name) or recv.id in w.params:
+            return False
+        ds = w.defs.get(recv.id, [])
+        if not ds:
+            return False
+        for dd in ds:
+            if dd[0] != 'value':
+                return False
+            v = dd[1]
+            if isinstance(v, (ast.List, ast.Set, ast.Dict, ast.ListComp, ast.SetComp,
+                              ast.DictComp)):
+                continue
+            if isinstance(v, ast.Call) and src(v.func).split('.')[-1] in (
+                    'list', 'set', 'dict', 'deque', 'defaultdict', 'OrderedDict'):
+                continue
+            return False
+        return True
+
     def _is_module_global(self, m: Module, name: str) -> bool:
         return name in m.assigns
 
@@ -533,6 +555,10 @@ class Effects:
                 continue
             # unresolved: external function or method on unknown receiver
             if isinstance(fe, ast.Attribute):
+                if fe.attr in MUTATORS and self._fresh_container(w, fe.value):
+                    # `work = [position]; work.pop(); work.extend(..)`: the list built here is
+                    # what changes, not the caller objects it holds
+                    continue
                 if fe.attr in MUTATORS:
                     for r in self.roots(q, fe.value, at=e.order):
                         if f.name == '__init__' and r == 'self':
